@@ -21,6 +21,10 @@ def runs(tier):
             for sh in (False, True):
                 for pool in (False, True):
                     cfgs.append(mk(g, shuffle=sh, pool=pool, kind=kind))
+    for g in ([2], [1, 2], [3, 2]):
+        for sh in (False, True):
+            for pool in (False, True):
+                cfgs.append(mk(g, shuffle=sh, pool=pool, kind="nested", dup=True))
     out.append(dict(name="C01_small", configs=cfgs, max_perm=3))
     # N = 4: all 24 permutations x all interleavings are model-checked; a seeded sample of them is replayed
     cfgs = []
